@@ -1066,6 +1066,14 @@ func (rl *Shell) shellBackwardKillWord() {
 	rl.cursor.ToFirstNonSpace(true)
 	bpos = rl.cursor.Pos()
 
+	// No word before the cursor (only blanks).
+	if bpos < 0 || bpos > startPos {
+		rl.cursor.Set(startPos)
+		rl.selection.Reset()
+
+		return
+	}
+
 	rl.Buffers.Write([]rune((*rl.line)[bpos:startPos])...)
 	rl.line.Cut(bpos, startPos)
 	rl.selection.Reset()
